@@ -20,8 +20,8 @@ CLAIMED = {
             "quadrature_permutation in every corpus kernel (E2); E3 numbering (bounded) executes interior-facet kernels for every pair of local vertex numberings of two 2D cells with the codes that make the points coincide and compares the physical results.",
             "Undecided: that the permutation codes mean what DOLFINx means (A-PERM); numeric invariance.",
             "sidecar contracts + VC generation (z3); per-kernel read-set obligations", "4 C03"),
-    "C04": ("proof", "A extents num_points*components*dofs for every corpus expression kernel (E2); descriptor fields against UFL (E3, bounded).",
-            "Undecided: value of the expression. Descriptor checks are bounded (corpus).",
+    "C04": ("proof", "A extents num_points*components*dofs for every corpus expression kernel (E2); descriptor fields against UFL (E3, bounded); E3 numeric (bounded): every corpus expression kernel executed on pseudo-random data equals the original UFL expression evaluated at the points (cell points; facet points for every local facet and both interval permutation codes).",
+            "The value of the expression is decided on the corpus only (bounded). Descriptor checks are bounded (corpus).",
             "per-kernel SMT obligations; run-time descriptor contracts (bounded)", "4 C04"),
     "C05": ("proof", "w/c accessors add exactly the coefficient/constant offset (E1); in every corpus kernel the w reads that flow into A lie "
             "inside enabled coefficients' ranges computed from UFL, c reads inside sum of constant sizes (E2); enabled_coefficients / "
@@ -69,8 +69,8 @@ CLAIMED = {
             "exhaustive finite enumeration on the real functions + bounded pair checks", "4 C13"),
     "C18": ("proof", "numba formatter round trip for every constructible depth-2 tree and for the depth-3 family operator pair x sensitive child (exhaustive, Python ast); integral_data contract "
             "(shared with C); numba module valid Python, descriptors equal to the C module's, declared array sizes cover the UFCx extents "
-            "on every corpus file (bounded).",
-            "Numeric equality of kernels and numba compilation not decided; math-function spelling of the numba formatter (np.*) not checked.",
+            "on every corpus file (bounded); E3 numba execution (bounded): the emitted Python text of every corpus kernel is executed under CPython (stub numba.carray) and gives the same tensor as the LNodes program under C semantics.",
+            "numba's own compilation is not exercised (numba is not installed); numeric equality is decided on the corpus only.",
             "exhaustive finite enumeration with an independent parser + run-time descriptor contracts (bounded)", "4 C18"),
     "C14": ("proof", "per-process ordering contracts of the cache protocol proved on every control-flow path of the real jit.py "
             "functions, including every exceptional exit of the fault model: O1 lock before build, O2 marker only after the C "
